@@ -56,18 +56,22 @@ def isWsScheme (s : Str) : Bool := s == "ws".toList || s == "wss".toList
 def domainPartOf (cfg : MapCfg) (a : Adapter) : Str :=
   if !cfg.hostMatching then (match a.subdomain with | some s => s | none => a.serverName) else a.serverName
 
+/-- `method = (method or self.default_method).upper()`, `websocket` defaulting to the bound scheme -/
+def reqOf (a : Adapter) (method : Option Str) (ws : Option Bool) : Req :=
+  ⟨((match method with | some x => if x.isEmpty then a.defaultMethod else x | none => a.defaultMethod)).map upperAscii,
+   ws.getD (isWsScheme a.urlScheme)⟩
+
 /-- `MapAdapter.match(path_info, method, query_args=qa, websocket=ws)` -/
 def matchAdapter (m : RMap) (a : Adapter) (pathInfo : Str) (method : Option Str) (qa : QueryArgs)
     (ws : Option Bool) : Outcome :=
   let qa := match qa with | .none => a.queryArgs | q => q
-  let method := ((match method with | some x => if x.isEmpty then a.defaultMethod else x | none => a.defaultMethod)).map upperAscii
-  let ws := ws.getD (isWsScheme a.urlScheme)
+  let q := reqOf a method ws
   let domainPart := domainPartOf m.cfg a
   let pp := pathPart pathInfo
-  match matchSM m.root m.cfg.mergeSlashes m.cfg.redirectDefaults ⟨method, ws⟩ domainPart pp with
+  match matchSM m.root m.cfg.mergeSlashes m.cfg.redirectDefaults q domainPart pp with
   | .requestPath p => .redirect (makeRedirectUrl m.cfg.hostMatching a (quote pathSafe p) qa none)
   | .aliasRedirect r vals =>
-    match adapterBuild m.cfg a m.rules r.endpoint vals (some method) true false with
+    match adapterBuild m.cfg a m.rules r.endpoint vals (some q.method) true false with
     | .error e => .error e
     | .ok url => .redirect (if qa.truthy then url ++ '?' :: encodeQueryArgs qa else url)
   | .noMatch ms wsm =>
@@ -76,7 +80,7 @@ def matchAdapter (m : RMap) (a : Adapter) (pathInfo : Str) (method : Option Str)
     else .notFound
   | .ok r vals =>
     if m.cfg.redirectDefaults then
-      match getDefaultRedirect m a r method vals qa (rulesByEndpoint m.rules r.endpoint) with
+      match getDefaultRedirect m a r q.method vals qa (rulesByEndpoint m.rules r.endpoint) with
       | .error e => .error e
       | .ok (some url) => .redirect url
       | .ok none => .matched r vals
